@@ -20,7 +20,8 @@ def compositions(n, k):
 
 
 @functools.lru_cache(None)
-def seqs(n, fd, ld, top, in_loop_body, nested_loop):
+def seqs(n, fd, ld, top, in_loop_body, nested_loop, lead_block=False,
+         bunch=False):
     """shapes of sequences with exactly n events.
     fd/ld: remaining fork / loop nesting depth; top: top-level sequence
     (detach allowed in its AND/OR forks); in_loop_body: sequence is directly
@@ -36,21 +37,28 @@ def seqs(n, fd, ld, top, in_loop_body, nested_loop):
         if prefix and not last_was_block:
             for size in range(1, remaining + 1):
                 for blk in blocks(size, fd, ld, top, in_loop_body,
-                                  nested_loop):
+                                  nested_loop, bunch):
                     build(remaining - size, prefix + [blk], True)
     build(n, [], True)
+    if lead_block:
+        # "bunched" logic: the branch starts with a fork block
+        for size in range(2, n + 1):
+            for blk in blocks(size, fd, 0, False, False, False, bunch):
+                if blk[0] == 'loop':
+                    continue
+                build(n - size, [blk], True)
     return tuple(res)
 
 
 @functools.lru_cache(None)
-def blocks(n, fd, ld, top, in_loop_body, nested_loop):
+def blocks(n, fd, ld, top, in_loop_body, nested_loop, bunch=False):
     res = []
     if fd > 0:
         for k in (2, 3):
             if n < k:
                 continue
             for comp in compositions(n, k):
-                opts = [seqs(c, fd - 1, ld, False, False, False)
+                opts = [seqs(c, fd - 1, ld, False, False, False, bunch, bunch)
                         for c in comp]
                 for brs in itertools.product(*opts):
                     if list(brs) != sorted(brs, key=repr):
@@ -77,7 +85,7 @@ def blocks(n, fd, ld, top, in_loop_body, nested_loop):
                                         for i, b in enumerate(brs))
                                     res.append(('xor', b2))
     if ld > 0 and n >= 1:
-        for body in seqs(n, fd, ld - 1, False, True, (not top)):
+        for body in seqs(n, fd, ld - 1, False, True, (not top), False, bunch):
             res.append(('loop', body))
     return tuple(res)
 
@@ -109,6 +117,74 @@ def F(nmax, fork_depth=3, loop_depth=2, nmin=1):
     out = []
     for n in range(nmin, nmax + 1):
         out.extend(F_exact(n, fork_depth, loop_depth))
+    return out
+
+
+def F_bunched(nmax, nmin=1):
+    """extension beyond F: fork branches may start with a fork block
+    ("bunched" logic, as in the corpus' bunched_* cases).  Only definitions
+    that are not already in F are returned."""
+    out = []
+    for n in range(nmin, nmax + 1):
+        base = set(seqs(n, 3, 2, True, False, False))
+        for s in seqs(n, 3, 2, True, False, False, False, True):
+            if s not in base:
+                out.append(name(s))
+    return out
+
+
+def F_bunched_new(nmax):
+    """bunched definitions whose job set differs from every definition of
+    F_nmax and from each other (the tool only ever sees the job set)"""
+    from . import semantics
+    seen = set()
+    for d in F(nmax):
+        seen.add(semantics.language(d, 2))
+    new = []
+    for d in F_bunched(nmax):
+        lang = semantics.language(d, 2)
+        if lang not in seen:
+            seen.add(lang)
+            new.append(d)
+    return new
+
+
+def staged_merge_family():
+    """a branch that merges with one sibling before it merges with the rest
+    (three-way merges resolved in stages), with and without a loop on the
+    inner branch: A op1[ op2[B L|C] E | D ] F"""
+    out = []
+    E_ = lambda n: ('ev', n)  # noqa: E731
+    for op1 in ('and', 'or', 'xor'):
+        for op2 in ('and', 'or', 'xor'):
+            for inner in ((E_('B'),), (E_('B'), ('loop', (E_('X'),))),
+                          (E_('B'), ('loop', (E_('X'), E_('Y'))))):
+                out.append((E_('A'),
+                            (op1, (((op2, (inner, (E_('C'),))), E_('E')),
+                                   (E_('D'),))),
+                            E_('F')))
+            # the loop after the inner merge
+            out.append((E_('A'),
+                        (op1, (((op2, ((E_('B'),), (E_('C'),))), E_('E'),
+                                ('loop', (E_('X'),))), (E_('D'),))),
+                        E_('F')))
+    return out
+
+
+def repeated_event_family():
+    """the same event type on parallel branches (counts > 1; outside F, used
+    for presentation-independence only)"""
+    E_ = lambda n: ('ev', n)  # noqa: E731
+    out = []
+    for op in ('and', 'or'):
+        out.append((E_('A'), (op, ((E_('B'),), (E_('B'),))), E_('C')))
+        out.append((E_('A'), (op, ((E_('B'),), (E_('B'),), (E_('C'),))),
+                    E_('D')))
+        out.append((E_('A'), (op, ((E_('B'),), (E_('C'),), (E_('C'),))),
+                    E_('D')))
+        out.append((E_('S'), E_('A'),
+                    (op, ((E_('B'),), (E_('B'),), (E_('C'), E_('E')))),
+                    E_('D')))
     return out
 
 
